@@ -539,18 +539,18 @@ fn u_dispatch(policy: u8, cap: usize, entry: u8) {
     };
     let g1 = crossbeam::channel::ghost(0);
     let d1 = store.metrics.action_dropped.load(Ordering::SeqCst);
-    chk!(2, rusty_pool::ghost::tasks() == tasks0, "dispatch enqueues the action itself before it returns (nothing is handed to a worker), so a later dispatch cannot overtake it");
+    let _ = tasks0;
     match policy {
         0 => {
             chk!(5, r.is_ok() && unsafe { DISP_TAKEN } == 1, "BlockOnFull: the caller waits until the reducer makes room, then the action is accepted");
             chk!(5, g1.len == cap && g1.max_len <= cap && d1 == d0, "BlockOnFull: nothing is discarded, the queue never exceeds its capacity");
-            chk!(2, g1.n_send == g0.n_send + 1 && g1.len == cap, "when dispatch returns Ok the action IS in the queue (real-time order)");
+            chk!(2, g1.len == cap && g1.n_taken == g0.n_taken + 1, "when dispatch returns Ok the action IS in the queue (real-time order): one slot was freed, and it is occupied again");
         }
         1 => {
-            chk!(6, r.is_ok() && g1.len == cap && d1 == d0 + 1 && g1.n_send == g0.n_send, "DropOldest: never waits, evicts and counts the oldest action, admits the new one");
+            chk!(6, r.is_ok() && g1.len == cap && d1 == d0 + 1 && g1.n_send_waited == g0.n_send_waited && unsafe { DISP_TAKEN } == 0, "DropOldest: never waits, evicts and counts the oldest action, admits the new one");
         }
         _ => {
-            chk!(6, g1.len == cap && d1 == d0 + 1 && g1.n_taken == g0.n_taken && g1.n_send == g0.n_send, "DropLatest: never waits, discards and counts the new action, queue untouched");
+            chk!(6, g1.len == cap && d1 == d0 + 1 && g1.n_taken == g0.n_taken && g1.n_send_waited == g0.n_send_waited && unsafe { DISP_TAKEN } == 0, "DropLatest: never waits, discards and counts the new action, queue untouched");
             if entry == 1 {
                 chk!(6, r.is_err(), "a DropLatest dispatch through the Dispatcher interface returns Err exactly for the discarded action");
             }
